@@ -27,7 +27,7 @@ use std::task::{Poll, Waker};
 
 pub const META: Meta = Meta {
     level: "model_checking",
-    rule: "delivery (E1): write sequences over sizes {0,1,2,MAX-1,MAX,MAX+1,2*MAX+1} (MAX = 64511): quick = every single write (either role writing), every pair over the six sizes <= MAX+1 and 2*MAX+1 paired with 1 / MAX on either side (initiator writing); thorough = every sequence of <=2 writes (either role) and every sequence of 3 (initiator writing); x {flush after every write, flush at the end}, over two real noise Outputs produced by a real XX handshake; per configuration every execution with <= bound deviations after the handshake (transport reads/writes cut to 1, 2 or 65537 bytes, injected Pending on read/write/flush, non-round-robin task choice); bound 1 quick; thorough: bound 2 for sequences of <=2 writes, bound 1 for sequences of 3. Tamper (E3): a recorded stream of 3 frames (plaintexts of 5, 1, 16 bytes; thorough adds 300): every byte x 8 one-bit flips (quick) / 255 values (thorough), every truncation, in both directions, followed by EOF. Non-trivial = delivery executions with >=1 deviation; every tampered stream.",
+    rule: "delivery (E1): write sequences over sizes {0,1,2,MAX-1,MAX,MAX+1,2*MAX+1} (MAX = 64511): quick = every single write (either role writing), every pair over {0,1,MAX-1,MAX,MAX+1} and 2*MAX+1 paired with 1 / MAX on either side (initiator writing); thorough = every single write (either role) and every pair (initiator writing) at bound 2, every pair (responder writing) and every sequence of 3 (initiator writing) at bound 1; x {flush after every write, flush at the end}, over two real noise Outputs produced by a real XX handshake; per configuration every execution with <= bound deviations after the handshake (transport reads/writes cut to 1, 2 or 65537 bytes, injected Pending on read/write/flush, non-round-robin task choice); bound 1 quick; thorough as stated, with a wall-clock cap of 480 s per worker after which remaining configurations drop to bound 1 (reported as a cap). Tamper (E3): a recorded stream of 3 frames (plaintexts of 5, 1, 16 bytes; thorough adds 300): every byte x 8 one-bit flips (quick) / 255 values (thorough), every truncation, in both directions, followed by EOF. Non-trivial = delivery executions with >=1 deviation; every tampered stream.",
     explanation: "Delivery: E1 stateless deviation-bounded DFS over the real Output futures; oracle: the reader obtains exactly the concatenation of the writes and a clean EOF, the reply arrives intact. Tamper: fault enumeration on the recorded ciphertext; oracle: the bytes read are a prefix of the plaintext and, for byte corruption, the read sequence ends in an error (never altered bytes, never a clean EOF).",
     assumptions: &["poll-granularity interleaving on one thread", "chunking deviations start after both handshakes completed (handshake chunking belongs to C16/C14 style checks)", "snow / ring AEAD trusted; manipulations are enumerated, not computational"],
 };
@@ -344,14 +344,16 @@ fn deliver_cfgs(ctx: &Ctx) -> Vec<Value> {
         // all single writes (both roles); all pairs over the sizes up to MAX+1; the two-frame
         // write 2*MAX+1 paired with 1 and MAX on either side (initiator writes)
         mc::enumerate::sequences(SIZES.len(), 1, |idx| push(idx, &[true, false], 1));
-        mc::enumerate::sequences(SIZES.len() - 1, 2, |idx| push(idx, &[true], 1));
+        const Q: [usize; 5] = [0, 1, 3, 4, 5]; // 0, 1, MAX-1, MAX, MAX+1
+        mc::enumerate::sequences(Q.len(), 2, |idx| push(&[Q[idx[0]], Q[idx[1]]], &[true], 1));
         for x in [1usize, 4] {
             push(&[x, 6], &[true], 1);
             push(&[6, x], &[true], 1);
         }
     } else {
         mc::enumerate::sequences(SIZES.len(), 1, |idx| push(idx, &[true, false], 2));
-        mc::enumerate::sequences(SIZES.len(), 2, |idx| push(idx, &[true, false], 2));
+        mc::enumerate::sequences(SIZES.len(), 2, |idx| push(idx, &[true], 2));
+        mc::enumerate::sequences(SIZES.len(), 2, |idx| push(idx, &[false], 1));
         mc::enumerate::sequences(SIZES.len(), 3, |idx| push(idx, &[true], 1));
     }
     // order by cost so that striping over the workers balances
@@ -380,12 +382,22 @@ pub fn run(ctx: &Ctx) -> Outcome {
     let cfgs = deliver_cfgs(ctx);
     let mut out = mc::workers(ctx, 16, |ctx| {
         let mut out = Outcome::default();
+        let budget = mc::Budget::secs(480.0);
         // ---- delivery (E1); configurations ordered by cost so that striping balances
         for (i, cfg) in cfgs.iter().enumerate() {
             if !ctx.mine(i as u64) {
                 continue;
             }
-            let (st, viol) = choice::explore(cfg["bound"].as_u64().unwrap_or(1) as u32, 0, deliver_body(cfg));
+            let mut b = cfg["bound"].as_u64().unwrap_or(1) as u32;
+            if b > 1 && budget.exceeded() {
+                // wall-clock cap: the remaining configurations are explored at bound 1 only
+                b = 1;
+                out.caps.push("wall-clock budget (480 s per worker) reached: some configurations explored at deviation bound 1 instead of 2".into());
+                out.caps.dedup();
+                out.not_exhaustive = true;
+                out.count("deliver_configs_capped_to_bound_1", 1);
+            }
+            let (st, viol) = choice::explore(b, 0, deliver_body(cfg));
             out.add_explore(&st);
             out.count("deliver_configs", 1);
             for k in 1..st.executions.min(50_000) {
